@@ -159,6 +159,11 @@ def prof(inp):
                 best = err_ if best is None else min(best, err_)
             if best > 0.08:
                 return {"got": best, "expected": "cells on the drawn level hold sqrt(profiled rise)", "witness_class": "contour-grid:scipy"}
+            # ... and the grid covers the WHOLE level curve: the sigma-contour of a quadratic form extends to +- sigma standard deviations along each axis
+            for ax_, g_ in ((0, gx), (1, gy)):
+                half = sigma * math.sqrt(C2s[ax_, ax_])
+                if g_.min() > pv[free[ax_]] - half or g_.max() < pv[free[ax_]] + half:
+                    return {"got": [float(g_.min()), float(g_.max())], "expected": [float(pv[free[ax_]] - half), float(pv[free[ax_]] + half)], "witness_class": f"contour-grid-truncated:scipy:sigma-{sigma:g}"}
             continue
         if c is None:
             continue
